@@ -221,3 +221,21 @@ pub fn ops_uint<const B: usize, const L: usize>(nd: &mut Nd) {
     r >>= &b;
     chk_bits!(nd, "C05.op.shr_assign_uint.ref", B, r, i, wr);
 }
+
+/// rotations by a concrete amount S (whole-limb and mixed amounts as separate harness instances): the
+/// symbolic-amount harness above covers the same inputs, but a concrete amount keeps any slice-level fast path
+/// in the implementation concrete for the solver
+pub fn rot_const<const B: usize, const L: usize, const S: usize>(nd: &mut Nd) {
+    let a: Uint<B, L> = nd.uint();
+    let i = nd.upto(B);
+    let la = *a.as_limbs();
+    let rl = a.rotate_left(S);
+    let rr = a.rotate_right(S);
+    if B > 0 && i < B {
+        let sr = S % B;
+        let j = if i + sr >= B { i + sr - B } else { i + sr };
+        chk!(nd, "C05.rotate_left.bit", refm::bit(rl.as_limbs(), j) == refm::bit(&la, i));
+        chk!(nd, "C05.rotate_right.bit", refm::bit(rr.as_limbs(), i) == refm::bit(&la, j));
+    }
+    chk!(nd, "C05.rotate.canonical", refm::canonical(rl.as_limbs(), B) && refm::canonical(rr.as_limbs(), B));
+}
